@@ -9,4 +9,9 @@ META = {
   "text": "Every generated ring descriptor is published through a KV store to a real ring.Ring client inside a synctest bubble (exact heartbeat ages) and each (key, operation) lookup is compared with a 60-line clockwise-walk + majority specification written from the statement; a small universe (3 instances x 2 tokens over the boundary alphabet incl. 0,1,2^32-1) is enumerated, larger rings are seeded-random; add-one-instance pairs check the locality clause on real answers; MergeTokens/GetTokens are checked over all list orders. Held = no disagreement on the cases listed in the evidence.",
   "note": "Trusted: the walk specification (harness/spec/walk.go) as the reading of the statement, Go synctest, RecStore. Sampling outside the enumerated small universe.",
  },
+ "C14": {
+  "technique": "differential runtime monitor between two real APIs: TokenRanges.IncludesKey vs Ring.Get / PartitionRing.ActivePartitionForKey; exhaustive small layouts + random large ones",
+  "text": "For every layout (all assignments of the boundary alphabet {0,1,2,2^32-3..2^32-1} to <=3 owners x <=3 tokens, exhaustively; random layouts up to 64 owners x 128 tokens) and every boundary key, IncludesKey on the reported ranges is compared with the real lookup (a zone-aware ring.Ring client with zones = RF fed through the store, and an all-active PartitionRing); tiling (exactly one owner per key and zone) and range well-formedness are asserted directly.",
+  "note": "Trusted: the lookup side is the real Ring.Get/ActivePartitionForKey (checked against the walk specification by C01/C15). Random layouts are sampled; boundary keys sampled on large layouts.",
+ },
 }
